@@ -284,6 +284,10 @@ example : LegalHist [.newCluster 1 [], .newShape 2, .newCluster 3 [], .processTr
     (run [.newCluster 1 [], .newShape 2, .newCluster 3 [], .processTransaction, .setClusterPoly 1 [],
       .newCluster 4 [], .deleteCluster 3, .deleteShape 2, .deleteRouter]).leaked = [] := by decide
 
+-- non-vacuity of clusters_released: both hypotheses jointly (documented-legal, router dead), two clusters alive at `~Router`
+example : ClustersReleased (run [.newCluster 1 [], .newShape 2, .processTransaction, .newCluster 4 [2], .deleteRouter]) :=
+  clusters_released _ (by decide) (by decide)
+
 /-- a cluster id cannot be reused while the router lives, and a deleted cluster cannot be used again -/
 example : LegalDocHist [.newCluster 1 [], .newShape 1] = false ∧
     LegalDocHist [.newCluster 1 [], .deleteCluster 1, .setClusterPoly 1 []] = false ∧
@@ -361,6 +365,11 @@ theorem api_calls_are_identity (s : St) :
   · intro o h
     simp only [LegalDoc, Bool.and_eq_true] at h
     simp [step, h.1, h.2.1]
+
+-- non-vacuity of api_calls_are_identity: the three premises hold in a reachable, non-initial state
+example : LegalDoc (run [.newShape 1, .newConn 2 none none true, .processTransaction]) .apiRouter = true ∧
+    LegalDoc (run [.newShape 1, .newConn 2 none none true, .processTransaction]) (.apiConn 2) = true ∧
+    LegalDoc (run [.newShape 1, .newConn 2 none none true, .processTransaction]) (.apiObst 1) = true := by decide
 
 /-- non-vacuity, and `touchConn` in both transaction modes: the bare ConnChange stays queued with
     transactions on and is processed at once with transactions off; a connector deleted while its bare
